@@ -137,12 +137,44 @@ pub fn minimise(
         still_fails(cand)
     };
     // strip trailing part first (cheap big win)
-    let mut changed = true;
-    while changed {
-        changed = false;
-        // 1. delete chunks, halving sizes
+    // Zeroing first: it keeps every later value at its position (a zero turns a fault off and
+    // picks the first alternative), so the run stays close to the failing one; deletion, which
+    // shifts the rest of the tape, comes second; value shrinking last.
+    let zero_pass = |cur: &mut Vec<u32>, execs: &mut usize, try_it: &mut dyn FnMut(&[u32], &mut usize) -> bool| -> bool {
+        let mut changed = false;
         let mut size = (cur.len() / 2).max(1);
-        while size >= 1 {
+        loop {
+            let mut i = 0;
+            while i < cur.len() {
+                let end = (i + size).min(cur.len());
+                if cur[i..end].iter().any(|&v| v != 0) {
+                    let mut cand = cur.clone();
+                    for v in &mut cand[i..end] {
+                        *v = 0;
+                    }
+                    if try_it(&cand, execs) {
+                        *cur = cand;
+                        changed = true;
+                    }
+                }
+                i += size;
+            }
+            if size == 1 {
+                break;
+            }
+            size /= 2;
+        }
+        changed
+    };
+    let mut changed = true;
+    let mut rounds = 0;
+    while changed && rounds < 4 {
+        rounds += 1;
+        changed = zero_pass(&mut cur, &mut execs, &mut try_it);
+        // delete chunks, halving sizes (stop at 8 on long tapes: single deletions are too many)
+        let min_size = if cur.len() > 2000 { 8 } else { 1 };
+        let mut size = (cur.len() / 2).max(1);
+        while size >= min_size {
             let mut i = 0;
             while i < cur.len() {
                 let end = (i + size).min(cur.len());
@@ -161,45 +193,24 @@ pub fn minimise(
             }
             size /= 2;
         }
-        // 2. zero chunks then single values
-        let mut size = (cur.len() / 4).max(1);
-        loop {
-            let mut i = 0;
-            while i < cur.len() {
-                let end = (i + size).min(cur.len());
-                if cur[i..end].iter().any(|&v| v != 0) {
+        // shrink single values
+        if cur.len() <= 4000 {
+            for i in 0..cur.len() {
+                while cur[i] > 0 {
                     let mut cand = cur.clone();
-                    for v in &mut cand[i..end] {
-                        *v = 0;
-                    }
+                    cand[i] = cur[i] / 2;
                     if try_it(&cand, &mut execs) {
                         cur = cand;
                         changed = true;
-                    }
-                }
-                i += size;
-            }
-            if size == 1 {
-                break;
-            }
-            size /= 2;
-        }
-        // 3. shrink single values
-        for i in 0..cur.len() {
-            while cur[i] > 0 {
-                let mut cand = cur.clone();
-                cand[i] = cur[i] / 2;
-                if try_it(&cand, &mut execs) {
-                    cur = cand;
-                    changed = true;
-                } else {
-                    let mut cand = cur.clone();
-                    cand[i] = cur[i] - 1;
-                    if cur[i] > 1 && try_it(&cand, &mut execs) {
-                        cur = cand;
-                        changed = true;
                     } else {
-                        break;
+                        let mut cand = cur.clone();
+                        cand[i] = cur[i] - 1;
+                        if cur[i] > 1 && try_it(&cand, &mut execs) {
+                            cur = cand;
+                            changed = true;
+                        } else {
+                            break;
+                        }
                     }
                 }
             }
